@@ -124,8 +124,8 @@ type Cfg struct {
 	Chars   bool     `json:"chars"`
 	Mode    string   `json:"mode"` // "", csv, tsv, csv-header
 	Newline int      `json:"newline"`
-	Vars    []string `json:"vars"`
-	Args    []string `json:"args"`
+	Vars    []h.Str  `json:"vars"` // h.Str: operands and values may hold invalid UTF-8, which must survive the replay file
+	Args    []h.Str  `json:"args"`
 	NoReads bool     `json:"no_reads"`
 	Chunk   uint64   `json:"chunk"` // how stdin is delivered
 	Twice   bool     `json:"twice"` // run a second time on the same Interpreter
@@ -148,11 +148,12 @@ func genCfg(t *rapid.T) Cfg {
 	if rapid.IntRange(0, 3).Draw(t, "hasvars") == 0 {
 		name := rapid.SampledFrom([]string{"FS", "RS", "OFS", "CONVFMT", "OFMT", "NF", "ARGC", "INPUTMODE", "OUTPUTMODE", "SUBSEP", "x", "NR", "RSTART"}).Draw(t, "vname")
 		val := rapid.SampledFrom([]string{"", " ", "((", "[", "\x80", "a+", "1e30", "-1", "csv", "csv header", "xyz", "%d", "%s", "%.99999f", "\n", "é", "1000001"}).Draw(t, "vval")
-		c.Vars = []string{name, val}
+		c.Vars = []h.Str{h.Str(name), h.Str(val)}
 	}
 	na := rapid.IntRange(0, 3).Draw(t, "nargs")
 	for i := 0; i < na; i++ {
-		c.Args = append(c.Args, rapid.SampledFrom([]string{"-", "", "FS=((", "FS=,", "RS=", "RS=[", "NF=-1", "NF=1e30", "x=1", "/nonexistent/file", "ARGC=0", "INPUTMODE=csv header", "INPUTMODE=zzz", "CONVFMT=%d", "9x=1", "a=b=c", "FS=\\", "RS=\\200"}).Draw(t, "arg"))
+		c.Args = append(c.Args, h.Str(rapid.SampledFrom([]string{"-", "", "FS=((", "FS=,", "RS=", "RS=[", "NF=-1", "NF=1e30", "x=1", "/nonexistent/file", "ARGC=0", "INPUTMODE=csv header", "INPUTMODE=zzz", "CONVFMT=%d", "9x=1", "a=b=c", "FS=\\", "RS=\\200",
+			"INPUTMODE=csv separator=\x80", "INPUTMODE=csv separator=\xff", "INPUTMODE=csv separator=\"", "INPUTMODE=csv comment=,", "INPUTMODE=tsv comment=\x80", "INPUTMODE=csv separator=\r", "OUTPUTMODE=csv separator=\x80", "OUTPUTMODE=tsv separator=\"", "OUTPUTMODE=csv separator=\n", "OUTPUTMODE=zzz"}).Draw(t, "arg")))
 	}
 	return c
 }
@@ -186,7 +187,26 @@ func genHostile(t *rapid.T) Case {
 			fmt.Fprintf(&sb, "%s {\n%s\n}\n", where, strings.Join(body, "\n"))
 		}
 	}
-	return Case{Src: sb.String(), Input: h.Str(rapid.SampledFrom(inputs).Draw(t, "input")), Cfg: genCfg(t)}
+	c := Case{Src: sb.String(), Input: h.Str(rapid.SampledFrom(inputs).Draw(t, "input")), Cfg: genCfg(t)}
+	if rapid.IntRange(0, 5).Draw(t, "swallowed") == 0 {
+		// A var=value operand whose assignment fails, reached by a plain getline in
+		// BEGIN: getline returns -1 and the run goes on, so whatever the failed
+		// assignment left behind is then used by the rest of the program.
+		bad := rapid.SampledFrom(hostileAssigns).Draw(t, "badassign")
+		c.Cfg.Args = append([]h.Str{h.Str(bad)}, c.Cfg.Args...)
+		c.Cfg.Vars = nil
+		c.Src = prelude + "BEGIN { " + rapid.SampledFrom([]string{"getline", "getline line", "getline; getline", "while ((getline line) > 0) cnt++"}).Draw(t, "swallow") + " }\n" + strings.TrimPrefix(c.Src, prelude) +
+			rapid.SampledFrom([]string{"", "{ print $1, NF; $2 = \"x\"; print }\n", "END { n = split(\"a\\377,b\\200 c\", arr); print n; $0 = \"p\\377q,r s\"; print $1, NF }\n", "{ n += split($0, arr) } END { print n; print 1, \"a\\377b\", \"c,d\" }\n"}).Draw(t, "after")
+	}
+	return c
+}
+
+// operand assignments that fail (or are at least unusual); see the "swallowed" mode of genHostile
+var hostileAssigns = []string{
+	"FS=((", "FS=[", "FS=a**", "RS=((", "RS=[a", "RS=x{2,1}", "NF=-1", "NF=1e30", "NF=1000001", "CONVFMT=%d", "OFMT=%s",
+	"INPUTMODE=csv separator=\x80", "INPUTMODE=csv separator=\xff", "INPUTMODE=csv separator=\"", "INPUTMODE=csv comment=,", "INPUTMODE=tsv comment=\x80", "INPUTMODE=csv separator=\r", "INPUTMODE=csv separator=\n",
+	"INPUTMODE=csv separator=ab", "INPUTMODE=csv header=x", "INPUTMODE=zzz", "INPUTMODE=csv comment=\"", "INPUTMODE=tsv separator=\xc3",
+	"OUTPUTMODE=csv separator=\x80", "OUTPUTMODE=csv separator=\xff", "OUTPUTMODE=tsv separator=\"", "OUTPUTMODE=csv separator=\n", "OUTPUTMODE=zzz", "OUTPUTMODE=csv separator=\r",
 }
 
 // ---------------------------------------------------------------- running under guard
@@ -212,8 +232,8 @@ var dataFile = func() string {
 }()
 
 func mkConfig(c Cfg, input []byte, out io.Writer) *interp.Config {
-	c.Vars = append(append([]string{}, c.Vars...), "DATAFILE", dataFile)
-	cfg := &interp.Config{Stdin: sandbox.NewChunkReader(input, sandbox.Chunking(len(input), c.Chunk)), Output: out, Error: io.Discard, Argv0: "goawk", Chars: c.Chars, Vars: c.Vars, Args: c.Args,
+	vars := append(strs(c.Vars), "DATAFILE", dataFile)
+	cfg := &interp.Config{Stdin: sandbox.NewChunkReader(input, sandbox.Chunking(len(input), c.Chunk)), Output: out, Error: io.Discard, Argv0: "goawk", Chars: c.Chars, Vars: vars, Args: strs(c.Args),
 		NoExec: true, NoFileWrites: true, NoFileReads: c.NoReads, Environ: []string{"HOME", "/"}, NewlineOutput: interp.NewlineMode(c.Newline)}
 	switch c.Mode {
 	case "csv":
@@ -225,6 +245,14 @@ func mkConfig(c Cfg, input []byte, out io.Writer) *interp.Config {
 		cfg.CSVInput.Header = true
 	}
 	return cfg
+}
+
+func strs(l []h.Str) []string {
+	var out []string
+	for _, s := range l {
+		out = append(out, string(s))
+	}
+	return out
 }
 
 type limitWriter struct {
@@ -484,7 +512,7 @@ func runBytes(x *h.Ctx, c ByteCase) string {
 		}
 	}
 	cfg := c.Cfg
-	cfg.Vars = []string{"RS", string(c.RS), "FS", string(c.FS)}
+	cfg.Vars = []h.Str{"RS", c.RS, "FS", c.FS}
 	r := execute(probes[c.Prog], input, cfg, 5*time.Second)
 	if msg := verdict(x, probes[c.Prog], r); msg != "" {
 		return fmt.Sprintf("%s\nprogram: %s\nRS=%s FS=%s config: %+v\ninput (after %d filler bytes): %s", msg, probes[c.Prog], h.Q(string(c.RS)), h.Q(string(c.FS)), c.Cfg, c.Pad, h.Q(h.Trunc(string(c.Input), 300)))
@@ -531,7 +559,11 @@ func genLint(t *rapid.T) LintCase {
 func runLint(x *h.Ctx, c LintCase) string {
 	prog, err := parser.ParseProgram([]byte(c.Src), nil)
 	if err != nil {
-		x.Discard("program rejected by the parser (" + c.Profile + ")")
+		if strings.HasPrefix(c.Profile, "repo:") {
+			x.Discard("repository file that is not an AWK program")
+		} else {
+			x.Discard("program rejected by the parser (" + c.Profile + ")")
+		}
 		return ""
 	}
 	probs, n, err := bclint.Lint(prog)
@@ -539,7 +571,11 @@ func runLint(x *h.Ctx, c LintCase) string {
 		x.Discard("static pass not applicable: " + err.Error())
 		return ""
 	}
-	x.Class("profile-" + c.Profile)
+	if strings.HasPrefix(c.Profile, "repo:") {
+		x.Class("profile-repo")
+	} else {
+		x.Class("profile-" + c.Profile)
+	}
 	if n >= 10 {
 		x.Nontrivial("")
 	}
